@@ -43,19 +43,16 @@ def main(argv):
                 from sim import profiles
                 rep = json.load(open(args.replay))
                 prof = profiles.get(rep["property"])
-                ctx = prof.new_ctx(rep["config"], rep.get("tier", "quick"))
                 print("config:", prof.config_diff(rep["config"]))
-                try:
-                    for op in rep["ops"]:
-                        n = len(ctx.world.log)
-                        try:
-                            ctx.step(op)
-                        finally:
-                            for e in ctx.world.log[n:]:
-                                print("  ", e)
-                    ctx.finish()
-                except engine.Violation as v:
-                    print("VIOLATION", v.signature, "\n", v.message)
+
+                def show(op, events):
+                    if not any(e[2] == "op" for e in events):
+                        print("   op", op if len(str(op)) < 200 else str(op)[:200] + "...")
+                    for e in events:
+                        print("  ", e)
+                r = engine.execute(prof, rep["config"], rep["ops"], None, rep.get("tier", "quick"), observer=show)
+                if r.violation:
+                    print("VIOLATION", r.violation[0], "\n", r.violation[1])
                 return 0
             rep, r = engine.replay_file(args.replay)
             if r.violation is None:
